@@ -147,7 +147,8 @@ def process(prog: dict, opts: dict) -> dict:
         bad = compare_outputs(res, gouts)
         runs.append({"k": k, "grain": grain, "status": res.status, "final": final_of(res),
                      "stuck": res.stuck, "bad_outputs": bad, "choices": res.choices,
-                     "anomalies": res.anomalies, "steps": res.nsteps})
+                     "anomalies": res.anomalies, "steps": res.nsteps,
+                     "leftovers": res.leftovers})
         traces.append({"id": f"{prog['id']}#{grain[0]}{k}", "events": res.events,
                        "final": final_of(res), "grain": grain})
     out["runs"], out["traces"] = runs, traces
@@ -162,11 +163,11 @@ def process(prog: dict, opts: dict) -> dict:
             f = ",".join(final_of(res))
             finals[f] = finals.get(f, 0) + 1
             b = compare_outputs(res, gouts)
-            if b or res.stuck or any(s["status"] != "ok" for s in res.status):
+            if b or res.stuck or res.leftovers or any(s["status"] != "ok" for s in res.status):
                 if len(bad_dfs) < 3:
                     bad_dfs.append({"status": res.status, "bad_outputs": b,
                                     "choices": res.choices, "stuck": res.stuck,
-                                    "events": res.events})
+                                    "leftovers": res.leftovers, "events": res.events})
         try:
             ex = dh.explore_all(pl, inst, vt, max_runs=dfs_runs, on_run=on_run)
             out["dfs"] = {"complete": ex["complete"], "runs": ex["runs"],
